@@ -192,7 +192,6 @@ fn eval_union_expr(
 
     let mut set = HashSet::new();
     nodes.retain(|v| set.insert(v.order()));
-
     Ok(nodes.as_value())
 }
 
@@ -591,11 +590,29 @@ fn descendant_and_self(node: dom::XmlNode) -> Vec<dom::XmlNode> {
     nodes
 }
 
+/// Everything after `node` in document order except its descendants: the following siblings
+/// of the node and of each of its ancestors, with their descendants.
 fn following(node: dom::XmlNode) -> Vec<dom::XmlNode> {
     let mut nodes = vec![];
 
-    for n in following_sibling(node) {
-        nodes.append(&mut descendant_and_self(n));
+    let mut current = node.clone();
+    if matches!(node, dom::XmlNode::Attribute(_) | dom::XmlNode::Namespace(_)) {
+        // the content of the element that bears the attribute comes after the attribute.
+        if let Some(p) = parent(node).pop() {
+            nodes.append(&mut descendant(p.clone()));
+            current = p;
+        }
+    }
+
+    loop {
+        for n in following_sibling(current.clone()) {
+            nodes.append(&mut descendant_and_self(n));
+        }
+
+        match current.parent_node() {
+            Some(p) => current = p,
+            None => break,
+        }
     }
 
     nodes
@@ -625,13 +642,27 @@ fn namespace(node: dom::XmlNode) -> Vec<dom::XmlNode> {
     nodes
 }
 
+/// Everything before `node` in document order except its ancestors, nearest first: the
+/// preceding siblings of the node and of each of its ancestors, with their descendants.
 fn preceding(node: dom::XmlNode) -> Vec<dom::XmlNode> {
     let mut nodes = vec![];
 
-    for p in preceding_sibling(node) {
-        let mut desc = descendant_and_self(p);
-        desc.reverse();
-        nodes.append(&mut desc);
+    let mut current = match parent(node.clone()).pop() {
+        Some(p) if matches!(node, dom::XmlNode::Attribute(_) | dom::XmlNode::Namespace(_)) => p,
+        _ => node,
+    };
+
+    loop {
+        for p in preceding_sibling(current.clone()) {
+            let mut desc = descendant_and_self(p);
+            desc.reverse();
+            nodes.append(&mut desc);
+        }
+
+        match current.parent_node() {
+            Some(p) => current = p,
+            None => break,
+        }
     }
 
     nodes
